@@ -131,7 +131,55 @@ def lenclass(n: int) -> str:
 TRAILS = {'none': b'', 'random': b'\x00\xff\x81\x05trail', 'frame': ref_encode(True, False, False, False, 2, False, None, b'next')}
 
 
+def run_sequence(case: Dict[str, Any]) -> Dict[str, Any]:
+    """Frames are not built and parsed one per process: the product builds every server reply with WebsocketFrame.text()
+    and parses every client frame with ONE frame object per connection (reset() between frames).  A frame must not depend
+    on the frames built or parsed before it."""
+    install()
+    rng = random.Random('c16seq:%s:%s' % (case['seed'], case['i']))
+    viol: Dict[str, Dict[str, Any]] = {}
+    lens = case['lens']
+    kind = case['kind']
+    prev = None
+    shared = WebsocketFrame()
+    for n in lens:
+        payload = bytes(rng.getrandbits(8) for _ in range(min(n, 256)))
+        payload = (payload * (n // max(1, len(payload)) + 1))[:n] if n else b''
+        step = '%s->%s' % (lenclass(prev) if prev is not None else 'first', lenclass(n))
+        try:
+            if kind == 'text':
+                raw = WebsocketFrame.text(payload)
+                if raw != ref_encode(True, False, False, False, 1, False, None, payload):
+                    viol.setdefault('seq|text|frame-depends-on-earlier-frames', {'lens': lens, 'at': n, 'step': step, 'head': raw[:12]})
+            else:
+                c = rng.randrange(256)
+                fin, r1, r2, r3, op = bool(c & 0x80), bool(c & 0x40), bool(c & 0x20), bool(c & 0x10), c & 0x0f
+                key = bytes(rng.getrandbits(8) for _ in range(4)) if rng.random() < 0.5 else None
+                if kind == 'reuse-build':
+                    shared.reset()
+                    shared.fin, shared.rsv1, shared.rsv2, shared.rsv3, shared.opcode = fin, r1, r2, r3, op
+                    shared.masked, shared.mask, shared.data = key is not None, key, payload
+                    shared.build()      # judged by the build contract
+                else:
+                    raw = ref_encode(fin, r1, r2, r3, op, key is not None, key, payload)
+                    trail = TRAILS[rng.choice(['none', 'random', 'frame'])]
+                    shared.reset()
+                    _expect.update(fields=(fin, r1, r2, r3, op, key is not None), payload=payload, trail=trail, key=key)
+                    shared.parse(raw + trail)
+        except ContractBroken:
+            viol.setdefault('seq|%s|frame-depends-on-earlier-frames' % kind, {'lens': lens, 'at': n, 'step': step})
+        except Exception as e:
+            viol.setdefault('seq|%s|exception:%s' % (kind, type(e).__name__), {'lens': lens, 'at': n, 'err': repr(e)})
+        prev = n
+    obs = {'seq_frames': len(lens), 'seq:' + kind: 1, 'contract_evals:build': EVAL['build'], 'contract_evals:parse': EVAL['parse']}
+    EVAL.update(build=0, parse=0, accept=0)
+    return {'viol': [{'key': k, 'detail': d} for k, d in viol.items()], 'sig': 'seq/%s/%s' % (kind, lens), 'nontrivial': True,
+            'obs': obs, 'sets': {'lengths': set(lens)}, 'sample': {'kind': kind, 'lens': lens}}
+
+
 def run_case(case: Dict[str, Any]) -> Dict[str, Any]:
+    if case.get('kind'):
+        return run_sequence(case)
     install()
     rng = random.Random('c16:%s:%s' % (case['seed'], case['i']))
     n = case['len']
@@ -214,6 +262,12 @@ def cases(tier: str, seed: int):
                     i += 1
                     yield {'seed': seed, 'i': i, 'len': n, 'key': key, 'trail': ['none', 'random', 'frame'][(blk // 16) % 3],
                            'combos': ALL[blk:blk + 16]}
+    srng = random.Random('c16seq:%d' % seed)
+    pool = [0, 1, 5, 32, 125, 126, 127, 300, 65535, 65536, 70000]
+    for k in range(45 if tier == 'quick' else 900):
+        i += 1
+        yield {'seed': seed, 'i': i, 'kind': ['text', 'reuse-build', 'reuse-parse'][k % 3],
+               'lens': [srng.choice(pool) if srng.random() < 0.7 else srng.randint(0, 400) for _ in range(srng.randint(2, 8))]}
     rng = random.Random('c16big:%d' % seed)
     for _ in range(4 if tier == 'quick' else 60):
         i += 1
@@ -224,7 +278,8 @@ def cases(tier: str, seed: int):
 def floors(tier: str) -> Dict[str, int]:
     return {'contract_evals:build': 5000, 'contract_evals:parse': 5000, 'contract_evals:accept': 100,
             'lenclass:0': 2, 'lenclass:1-125': 4, 'lenclass:126-65535': 4, 'lenclass:>=65536': 2,
-            'distinct:combos': 256, 'masked': 4, 'unmasked': 4}
+            'distinct:combos': 256, 'masked': 4, 'unmasked': 4,
+            'seq:text': 10, 'seq:reuse-build': 10, 'seq:reuse-parse': 10}
 
 
 if __name__ == '__main__':
